@@ -406,6 +406,24 @@ fn run_schedule(ops: &[Value], coalescing: bool, keepalive: Option<(u64, u64)>) 
                         // first poll: serialise + enqueue (the request is now "queued")
                         sim.poll_calls();
                     }
+                    "B" => {
+                        // bulk: submit `count` requests starting at id `start`
+                        let start = op[1].as_u64().unwrap();
+                        let count = op[2].as_u64().unwrap();
+                        for r in start..start + count {
+                            sim.submit(r);
+                        }
+                        sim.poll_calls();
+                    }
+                    "RA" => {
+                        // the server answers everything it holds, newest first
+                        sim.drain_server().await;
+                        let mut rs: Vec<u64> = sim.have.keys().copied().filter(|r| *r < u64::MAX / 2).collect();
+                        rs.reverse();
+                        for r in rs {
+                            sim.respond(r).await;
+                        }
+                    }
                     "C" => sim.cancel(op[1].as_u64().unwrap()),
                     "R" => {
                         let r = op[1].as_u64().unwrap();
@@ -467,8 +485,19 @@ fn run_schedule(ops: &[Value], coalescing: bool, keepalive: Option<(u64, u64)>) 
                                 // the server stops answering (also keep-alives); advance virtual time
                                 sim.ev(json!({"ev":"Fault","kind":"stall"}));
                                 let (i, t) = keepalive.unwrap_or((1000, 1000));
-                                for _ in 0..6 {
-                                    tokio::time::advance(Duration::from_millis((i + t) / 2 + 1)).await;
+                                let busy = op.get(2).and_then(|x| x.as_u64()).unwrap_or(0) == 1;
+                                let steps = if busy { 40 } else { 6 };
+                                let step_ms = if busy { i / 3 + 1 } else { (i + t) / 2 + 1 };
+                                for k in 0..steps {
+                                    if busy {
+                                        // callers keep submitting (and abandoning) requests while the peer is silent
+                                        sim.submit(9000 + k);
+                                        sim.poll_calls();
+                                        if k >= 2 {
+                                            sim.cancel(9000 + k - 2);
+                                        }
+                                    }
+                                    tokio::time::advance(Duration::from_millis(step_ms)).await;
                                     sim.pump().await;
                                 }
                             }
